@@ -70,7 +70,9 @@ impl<'t, 'a> Gen<'t, 'a> {
         // written text, which is location-preserving only if no variable hides a separator
         let literal = v.iter().all(|p| matches!(p, Piece::Lit(_)));
         let respell = if self.t.chance(self.o.respell_pct) && literal { Some(self.t.below(3) as u8) } else { None };
-        PathSpec { val: v, respell }
+        // directory-form paths (three spellings of `name/`) as inputs: one node whatever the spelling
+        let dir_suffix = if !unique && literal && respell.is_none() && self.t.chance(self.o.respell_pct) { Some(self.t.below(3) as u8) } else { None };
+        PathSpec { val: v, respell, dir_suffix }
     }
     fn binds(&mut self, n: usize, attrs: bool) -> Vec<(String, Val)> {
         let mut b = vec![];
